@@ -40,11 +40,23 @@ def run_cases(b, cases, workdir):
                         s.add(cmd_)
                     switched = True
                 s.add("name", drv.hx(chain[pos - 1].encode()))
+            # half of the cases: an earlier call of the same process saw a DIFFERENT ancestry (the parent carried another name, one that flips the
+            # verdict); the parent then takes its real name and the measured call must decide afresh
+            hist = sum(label.encode()) % 2 == 1 and not unread
+            listed = [x for x in items if x and len(x) <= 15]
+            alt = ("zz-alt" if chain[0] in items else (listed[0] if listed else None)) if hist else None
+            if alt:
+                s.add("name", drv.hx(alt.encode()))
             s.add("fork")
             if unread and not switched:
                 for cmd_ in drop_priv:
                     s.add(cmd_)
-            s.add("name", drv.hx(selfname.encode())).call("execve", label).add("endfork")
+            s.add("name", drv.hx(selfname.encode()))
+            if sum(label.encode()) % 3 == 0:
+                s.add("stdin", "closed")                 # callers without descriptor 0: what the filter opens gets number 0
+            if alt:
+                s.add("quiet", 1).call("execve", "earlier").add("quiet", 0).add("drain", "earlier:" + label).add("renameparent", drv.hx(chain[0].encode()))
+            s.call("execve", label).add("endfork")
             for _ in chain[:-1]:
                 s.add("endfork")
             s.add("drain", "post:" + label)
